@@ -61,7 +61,7 @@ POOL = []
 def load(tier):
     global POOL
     P = docs.pool()
-    POOL = [P[0].text(), P[2].text(), P[4].text(), '**kern\t**text\n*clefG2\t*\n4c\tDó-\n4d\tña "x"\n4e\t, ;\n*-\t*-\n',
+    POOL = [P[0].text(), P[2].text(), P[4].text(), '**kern\t**text\n*clefG2\t*\n4c\tDó-\n4d\tña "x"\n4e\t, ;\n4f\tque\u0301\n4g\t\u212bngstro\u0308m\n*-\t*-\n',     # precomposed and decomposed accents, a compatibility singleton
             '!!!COM: x\n\n**kern\t**kern\n*clefG2\t*clefF4\n\n=1\t=1\n4c\t4C\n\n\n4d\t4D\n==\t==\n*-\t*-\n\n!!!end\n\n']
 
 
